@@ -485,6 +485,13 @@ func registerIOModels() {
 			return VTuple{E: []Val{VInt{r}, VInt{sz}}}
 		},
 	}
+	libModels["utf8.RuneStart"] = &libModel{
+		desc: "RuneStart(b) <=> b is not a UTF-8 continuation byte, i.e. not 0x80 <= b < 0xC0",
+		apply: func(c *FnCtx, st *State, in ssa.Instruction, cc *ssa.CallCommon, args []Val) Val {
+			b := args[0].(VInt).T
+			return VBool{c.define("runestart", sBool, not(and(le("128", b), lt(b, "192"))))}
+		},
+	}
 	libModels["unicode.IsLetter"] = &libModel{
 		desc: "IsLetter(r) is the uninterpreted predicate ULetter(r), which for r < 0x80 holds exactly for A-Z and a-z (false for negative r)",
 		apply: func(c *FnCtx, st *State, in ssa.Instruction, cc *ssa.CallCommon, args []Val) Val {
